@@ -1155,12 +1155,12 @@ func init() {
 		Rule: "typed program generator over the core forms (builtin/user calls, progn, prog1, if/when/unless/cond/case, and/or, let/let*, " +
 			"setq, lambda, lambda-call, closures (counter, maker, shared binding, made in a loop, defun in a binding), defun + recursion, " +
 			"dolist/dotimes/do/do*, mapcar/apply/funcall, values/multiple-value-bind/-list, quote), depth <= 6, ~20-70 generated nodes, " +
-			"variable names reused across nested bindings, trace calls (vtr k form)/(vtr k) at evaluated positions; the reference evaluator's " +
+			"variable names reused across nested bindings (let/let*/do/do* deliberately rebind an outer uncaptured name and read it in a later init form), trace calls (vtr k form)/(vtr k) at evaluated positions; the reference evaluator's " +
 			"values and trace must equal the interpreter's (interpreted and Code.Compile'd modes). Blocks: deterministic probes of the listed " +
 			"findings; two-level templates (every form kind forced as direct child of every position of every form kind); quote programs over " +
 			"every datum kind in 10 evaluation contexts; seeded random programs. Clean stream avoids the listed constructs (counters avoided:*: " +
 			"multiple values reaching single-value consumers other than function arguments/prog1/case keys, progn passing multiple values, " +
-			"(values) with no values, cond test-only clauses, do variables without step, atom end tests, mapcar over possibly empty lists, " +
+			"(values) with no values, do/do* with an atom end test (run under a step budget; never run when nothing in the loop is a list form), " +
 			"free variables captured under a name that is rebound elsewhere (captured variables get unique names), bare free variable as " +
 			"lambda-call body form, 'x before anything but a symbol or list); 1 in 8 random cases is a dirty case that builds one listed construct. " +
 			"distinct = distinct program text + mode; non-trivial = reference run error-free with >= 3 trace events and >= 2 form kinds",
